@@ -35,7 +35,8 @@ RULE = ("scripted case = (solver class in {Newton, Broyden, NLBGS, NLBJ, LNBGS, 
         "to n0 (relative and absolute readings of the first stall comparison collide), scale 1024 keeps them apart. "
         "Non-trivial = the consumed history contains NaN/inf, or two norms identical within stall_tol while stall detection "
         "is on, or convergence exactly at the last allowed iterate, or a complex-step forced iteration after a converged "
-        "initial norm. Distinct = distinct canonical JSON of the case. End-to-end case = (solver class, vector size, "
+        "initial norm. A random tier adds histories of explicit floats (maxiter<=8, stall_limit<=4, norms placed relative to the "
+        "thresholds, to the previous norm and to stall_tol). Distinct = distinct canonical JSON of the case. End-to-end case = (solver class, vector size, "
         "coupling coefficients, start point, options); non-trivial = at least two iterations or a reported failure.")
 ASSUMPTIONS = [
     "the norm the solver acts on is what its own _iter_get_norm() returns; the scripted tier replaces that value on the "
@@ -63,10 +64,11 @@ ASSUMPTIONS = [
 ]
 EXHAUSTIVE = {'quick': True, 'thorough': True}
 BOUND = {
-    'quick': 'all histories (8-symbol alphabet) for maxiter 0..3 (NLBGS 0..4; Broyden depth 3 on a quarter of the grid) on the '
-             'option grid atol{1e-10,0} x rtol{1e-10,0} x [stall off | stall_limit{1,2} x type{abs,rel} x stall_tol{1e-12,1e-3}] x '
-             'err{F,T} x cs{F,T} x scale{1024,0.5}; maxiter 4 with stall_limit 3 on 8 points per class; block linear solvers '
-             'maxiter 0..4 x fwd/rev; plus 16000 random explicit-float histories (maxiter<=8) and 2000 end-to-end models',
+    'quick': 'all histories (8-symbol alphabet) for maxiter 0..3 (NLBGS 0..4) on the option grid atol{1e-10,0} x rtol{1e-10,0} x '
+             '[stall off | stall_limit{1,2} x type{abs,rel} x stall_tol{1e-12,1e-3}] x err{F,T} x cs{F,T} x scale{1024,0.5} '
+             '(deepest level: (err,scale) in {(T,0.5),(F,1024)} only; Broyden: that half everywhere, depth 3 on (T,0.5)); '
+             'maxiter 4 with stall_limit 3 on 8 points for Newton/NLBGS/NLBJ; block linear solvers maxiter 0..4 x fwd/rev; '
+             'plus 12000 random explicit-float histories (maxiter<=8) and 1600 end-to-end models',
     'thorough': 'all histories for maxiter 0..4 (NLBGS and block linear solvers 0..6) with stall_limit 0..3 on the full grid, '
                 'maxiter 5 with stall_limit 3 on 8 points per class; 640000 random histories; 60800 end-to-end models',
 }
@@ -214,6 +216,19 @@ class Rig(object):
 
         s._iter_get_norm = norm
         s._single_iteration = single
+        self.sweeps = None
+        if kind in ('NLBGS', 'NLBJ'):
+            # block solvers: one iteration = one solve of every subsystem; count the solves of the last subsystem
+            # (NonlinearBlockGS performs its first sweep inside the initial norm evaluation, not in _single_iteration)
+            self.sweeps = 0
+            comp = self.g.c2
+            orig_sub = comp._solve_nonlinear
+
+            def sub_solve():
+                self.sweeps += 1
+                return orig_sub()
+
+            comp._solve_nonlinear = sub_solve
         if kind in LN:
             self.prob.model.run_linearize()
         if cs:
@@ -234,6 +249,8 @@ class Rig(object):
         s.options['iprint'] = 0
         self.script = script
         self.events = []
+        if self.sweeps is not None:
+            self.sweeps = 0
         model = self.prob.model
         model._outputs.set_val(self.out0)
         if self.kind == 'Broyden':
@@ -260,7 +277,7 @@ class Rig(object):
             except Exception as e:     # judged by the caller (violation with a repo-frame signature, or harness error)
                 other = e
         return {'events': self.events, 'iter_count': int(s._iter_count), 'raised': raised, 'exhausted': exhausted,
-                'other': other, 'out': buf.getvalue()}
+                'other': other, 'out': buf.getvalue(), 'sweeps': self.sweeps}
 
 
 _RIGS = {}
@@ -458,11 +475,12 @@ def judge(cfg, obs, res, e2e=False):
     msg = bool(out.strip())
     raised = obs['raised']
     err = bool(cfg['err'])
+    sweeps = obs.get('sweeps')
     detail = lambda: (f"norms seen={norms} iterations={n_iter} _iter_count={obs['iter_count']} raised={raised} "
-                      f"stdout={out.strip()!r}")
+                      f"stdout={out.strip()!r}" + (f" subsystem sweeps={sweeps}" if sweeps is not None else ''))
 
     # (1) iteration cap
-    if obs['exhausted'] or n_iter > cap or obs['iter_count'] > cap or m > cap + 1:
+    if obs['exhausted'] or n_iter > cap or obs['iter_count'] > cap or m > cap + 1 or (sweeps is not None and sweeps > cap):
         res.fail('c1:iteration-cap-exceeded', f"cap={cap} " + detail())
         cls.append('cap-exceeded')
         if obs['exhausted']:
@@ -961,10 +979,16 @@ def all_points(tier):
     for kind in NL + LN:
         for mi in range(depth[kind] + 1):
             for pt in option_points(kind, tier, mi):
-                if tier == 'quick' and kind == 'Broyden' and mi == 3 and not (pt['err'] and pt['scale'] == 0.5):
-                    continue      # Broyden shares NonlinearSolver._solve with Newton/NLBJ: a quarter of the grid at depth 3
+                if tier == 'quick':
+                    # the deepest level of the quick tier runs on half of the (err, scale) grid; Broyden, which shares
+                    # NonlinearSolver._solve with Newton/NLBJ and is 3x as expensive, on a quarter at depth 3 and a half below
+                    diag = (pt['err'], pt['scale']) in ((True, 0.5), (False, 1024.0))
+                    if mi == depth[kind] and not diag:
+                        continue
+                    if kind == 'Broyden' and (not diag or (mi == 3 and not pt['err'])):
+                        continue
                 out.append((_cost(kind, mi), pt))
-        if kind in NL:
+        if kind in NL and not (tier == 'quick' and kind == 'Broyden'):
             for pt in deep_points(kind, tier):
                 out.append((_cost(kind, pt['maxiter']), pt))
     return out
@@ -985,12 +1009,12 @@ def bins(tier, nbins):
 
 def units(tier, seed):
     # few, evenly loaded units: importing OpenMDAO costs every worker process a second or more
-    nb = 20 if tier == 'quick' else 64
+    nb = 14 if tier == 'quick' else 64
     us = [{'kind': 'script', 'bin': k, 'nbins': nb} for k in range(nb)]
-    ne2e, per = (4, 500) if tier == 'quick' else (32, 1900)
+    ne2e, per = (4, 400) if tier == 'quick' else (32, 1900)
     for i in range(ne2e):
         us.append({'kind': 'e2e', 'n': per, 'seed': core.shard_seed(seed, ID, i)})
-    nr, perr = (2, 8000) if tier == 'quick' else (32, 20000)
+    nr, perr = (2, 6000) if tier == 'quick' else (32, 20000)
     for i in range(nr):
         us.append({'kind': 'rand', 'n': perr, 'seed': core.shard_seed(seed, ID, 100 + i)})
     return us
